@@ -26,6 +26,8 @@ pub fn into_b(a: u8) -> u32 { ((a as u32) << 2) | 1 }
 pub fn into_c(a: u16) -> u16 { a ^ 0x00ff }
 pub fn fmt_a(a: &u8, f: &mut core::fmt::Formatter<'_>) -> core::fmt::Result { f.write_str(if *a & 1 == 0 { "even" } else { "odd" }) }
 pub fn fmt_b(a: &u8, f: &mut core::fmt::Formatter<'_>) -> core::fmt::Result { f.write_str("<b>") }
+/// generic over the value type: prints the size of the type it was instantiated with (1 for a u8 field)
+pub fn fmt_g<T>(_a: &T, f: &mut core::fmt::Formatter<'_>) -> core::fmt::Result { f.write_str(["S0", "S1", "S2", "S3", "S4", "S5", "S6", "S7", "S8"][core::mem::size_of::<T>().min(8)]) }
 
 /// abstract key type used where Verus needs a non-generic field type with its own
 /// (uninterpreted) Hash; natively an ordinary newtype.
@@ -153,6 +155,10 @@ pub mod m {
     pub open spec fn mid_fmt_b() -> int { 2 }
     #[verifier::external_body]
     pub fn fmt_b(a: &u8, f: &mut core::fmt::Formatter<'_>) -> (r: core::fmt::Result) ensures r == fmt_b_spec(*a, f_state(old(f))) { unimplemented!() }
+    pub uninterp spec fn fmt_g_spec<T>(v: T, st: int) -> core::fmt::Result;
+    pub open spec fn mid_fmt_g() -> int { 3 }
+    #[verifier::external_body]
+    pub fn fmt_g<T>(a: &T, f: &mut core::fmt::Formatter<'_>) -> (r: core::fmt::Result) ensures r == fmt_g_spec(*a, f_state(old(f))) { unimplemented!() }
     pub struct Adv(pub u8);
     impl core::hash::Hash for Adv {
         #[verifier::external_body]
@@ -207,6 +213,8 @@ impl Val for () { fn draw<S: Src>(_s: &mut S) -> Self { } }
 impl Val for crate::m::K { fn draw<S: Src>(s: &mut S) -> Self { crate::m::K(s.u64()) } }
 impl<const ID: usize> Val for crate::m::Ctr<ID> { fn draw<S: Src>(s: &mut S) -> Self { crate::m::Ctr(s.u8()) } }
 impl Val for crate::m::Adv { fn draw<S: Src>(s: &mut S) -> Self { crate::m::Adv(s.u8()) } }
+impl Val for &'static Box<u8> { fn draw<S: Src>(s: &mut S) -> Self { Box::leak(Box::new(Box::new(s.u8()))) } }
+impl Val for Box<u8> { fn draw<S: Src>(s: &mut S) -> Self { Box::new(s.u8()) } }
 impl Val for &'static mut u8 { fn draw<S: Src>(s: &mut S) -> Self { Box::leak(Box::new(s.u8())) } }
 impl Val for crate::m::Inc { fn draw<S: Src>(s: &mut S) -> Self { crate::m::Inc(s.u8()) } }
 
@@ -261,6 +269,12 @@ impl Src for RandSrc {
 }
 
 /// structural sameness (f32/f64 by bits) used by value oracles
+/// run-time probe "is T: Copy" (autoref dispatch): a missing `impl Copy` is an assertion failure, not a build failure
+pub struct Probe<T>(pub core::marker::PhantomData<T>);
+pub trait IsCopy { fn is_copy(&self) -> bool; }
+impl<T: Copy> IsCopy for Probe<T> { fn is_copy(&self) -> bool { true } }
+pub trait IsNotCopy { fn is_copy(&self) -> bool; }
+impl<T> IsNotCopy for &Probe<T> { fn is_copy(&self) -> bool { false } }
 pub trait Same { fn same(&self, o: &Self) -> bool; }
 macro_rules! same_eq { ($($t:ty),*) => { $(impl Same for $t { fn same(&self, o: &Self) -> bool { self == o } })* } }
 same_eq!(u8, u16, u32, u64, usize, i8, i16, i32, i64, isize, bool, char, (), &'static str, String, crate::m::K, crate::m::W, Option<u8>, [u8; 4], [u8; 2], &'static u8, &'static [u8; 2], crate::m::Adv, Option<bool>, crate::m::Num);
